@@ -170,7 +170,16 @@ def with_logging(run):
     def wrapped(case):
         on = wants_logging(case)
         with logging_mode(on):
-            res = run(case)
+            try:
+                res = run(case)
+            except Exception as exc:  # noqa
+                # one kind of exception that escapes an oracle is the code under test's doing, not the harness's: the API
+                # returned an object and reading its (lazily decoded) value raises
+                import vworld
+
+                if not isinstance(exc, vworld.Unreadable):
+                    raise
+                res = Result("the value handed to the caller cannot be read: %s" % exc, True, ("unreadable_result",))
         if on and "debug_logging" not in res.classes:
             res.classes = tuple(res.classes) + ("debug_logging",)
         return res
